@@ -719,6 +719,18 @@ class InterfaceClass(_InterfaceClassBase):
     #
     # implements(IInterface)
 
+    def __init_subclass__(cls, **kwargs):
+        super().__init_subclass__(**kwargs)
+        # The C ``__call__`` only dispatches to a Python ``__adapt__``
+        # when the exact type carries this flag (see ``__new__``): a
+        # kind of interface that overrides ``__adapt__`` the ordinary
+        # way, and everything derived from it, needs the flag as well.
+        if (
+            cls.__adapt__ is not InterfaceBase.__adapt__ and
+            '_CALL_CUSTOM_ADAPT' not in cls.__dict__
+        ):
+            cls._CALL_CUSTOM_ADAPT = 1
+
     def __new__(
         cls,
         name=None,
